@@ -86,6 +86,36 @@ theorem decode_never_out_of_fuel (C : Ctx) (conv : BC → Res BC) (mods : Mods) 
     · exact h
     · exact h rfl
 
+/-- lifting the per-function converter of C11 to bytecode preserves "never panics / never
+    out of fuel": with `convCF` := C11's converter, `hcf` is its theorem `conv_total` -/
+theorem liftConv_total (convCF : CF → Res CF) (O : Prop) (hcf : ∀ f, RSat O (fun _ => True) (convCF f)) (bc : BC) :
+    RSat O (fun _ => True) (liftConv convCF bc) := by
+  have hcs : ∀ cs, RSat O (fun _ => True) (convConsts convCF cs) := by
+    intro cs
+    induction cs with
+    | nil => simp [convConsts]
+    | cons o rest ih =>
+      cases o with
+      | compiledFunction f =>
+        unfold convConsts
+        exact RSat_bind (hcf f) (fun _ _ => RSat_bind ih (fun _ _ => by simp))
+      | _ => unfold convConsts; exact RSat_bind ih (fun _ _ => by simp)
+  unfold liftConv
+  refine RSat_bind (P := fun _ => True) ?_ (fun _ _ => RSat_bind (P := fun _ => True) ?_ (fun _ _ => by simp))
+  · cases bc.main with
+    | none => simp
+    | some f => exact RSat_bind (hcf f) (fun _ _ => by simp)
+  · cases bc.constants with
+    | none => simp
+    | some cs => exact RSat_bind (hcs cs) (fun _ _ => by simp)
+
+/-- `decode_no_panic` with the v1 converter given per function (the form C11 proves) -/
+theorem decode_no_panic_lifted (C : Ctx) (convCF : CF → Res CF) (mods : Mods) (hG : GobRest C)
+    (hcf : ∀ f, (convCF f).isPanic = false) (fuel : Nat) (bs : Bytes) :
+    (decodeBytecodeF C (liftConv convCF) mods fuel bs).res.isPanic = false :=
+  decode_no_panic C _ mods hG
+    (fun bc => isPanic_of_RSat (liftConv_total convCF True (fun f => rsat_of_noPanic (hcf f)) bc)) fuel bs
+
 /-- explicit instances for the two supported header versions -/
 theorem decode_no_panic_versions (C : Ctx) (conv : BC → Res BC) (mods : Mods) (hG : GobRest C)
     (hconv : ∀ bc, (conv bc).isPanic = false) (fuel : Nat) (body : Bytes) :
